@@ -244,6 +244,9 @@ impl<'e> Sim<'e> {
         }
         let idx = self.steps;
         let t = op.target as usize;
+        if idx % 8 == 0 || self.last.iter().flatten().any(|o| o.len > 1024) {
+            crate::coord::heartbeat();
+        }
         if trace_ops() {
             eprintln!("  step {} {}", idx, fmt_op(op));
         }
